@@ -2433,6 +2433,17 @@ func (s *scanner) processScannedFiles(entryPointMeta []graph.EntryPoint) []scann
 		s.options.MetafileFormat = config.MinifiedMetafile
 	}
 
+	// JavaScript stubs for CSS files are generated by the loop below. They are
+	// only added to "s.results" after the loop has finished so that the loop
+	// never visits them. Otherwise whether or not a stub is visited depends on
+	// whether its source index comes before or after the file that imports it,
+	// which is different for incremental builds that reuse cached source indices.
+	type cssStub struct {
+		result      parseResult
+		sourceIndex uint32
+	}
+	var cssStubs []cssStub
+
 	// Now that all files have been scanned, process the final file import records
 	for sourceIndex, result := range s.results {
 		if !result.ok {
@@ -2627,7 +2638,7 @@ func (s *scanner) processScannedFiles(entryPointMeta []graph.EntryPoint) []scann
 							sourceIndex := s.allocateSourceIndex(stubKey, cache.SourceIndexJSStubForCSS)
 							source := otherFile.inputFile.Source
 							source.Index = sourceIndex
-							s.results[sourceIndex] = parseResult{
+							cssStubs = append(cssStubs, cssStub{sourceIndex: sourceIndex, result: parseResult{
 								file: scannerFile{
 									inputFile: graph.InputFile{
 										Source: source,
@@ -2641,7 +2652,7 @@ func (s *scanner) processScannedFiles(entryPointMeta []graph.EntryPoint) []scann
 									},
 								},
 								ok: true,
-							}
+							}})
 							css.JSSourceIndex = ast.MakeIndex32(sourceIndex)
 						}
 						record.SourceIndex = css.JSSourceIndex
@@ -2823,6 +2834,11 @@ func (s *scanner) processScannedFiles(entryPointMeta []graph.EntryPoint) []scann
 		}
 
 		s.results[sourceIndex] = result
+	}
+
+	// Add the JavaScript stubs for CSS files that were generated above
+	for _, stub := range cssStubs {
+		s.results[stub.sourceIndex] = stub.result
 	}
 
 	// Traverse the graph to check top-level await
